@@ -94,6 +94,9 @@ def run_index(profile, base_seed, idx, tier, armed, agg):
 
 def account(profile, agg, sc, run, faulted):
     agg["runs"] += 1
+    agg["digest_xor"] ^= int(run.digest()[:16], 16)
+    for k in ("hash_mode", "db_reverse", "db_shuffle", "hook_mode"):
+        agg["configs"][f"{k}={sc['config'].get(k)}"] += 1
     agg["fault_runs" if faulted else "clean_runs"] += 1
     agg["sim_steps"] += len(run.cross_counts)
     agg["stats"].update(run.stats)
@@ -123,7 +126,7 @@ def account(profile, agg, sc, run, faulted):
 
 def new_agg():
     return {
-        "runs": 0, "clean_runs": 0, "fault_runs": 0, "sim_steps": 0, "nviol": 0,
+        "runs": 0, "clean_runs": 0, "fault_runs": 0, "sim_steps": 0, "nviol": 0, "digest_xor": 0, "configs": Counter(),
         "stats": Counter(), "probes": Counter(), "known_hits": Counter(), "events": Counter(),
         "faults_armed": Counter(), "faults_fired": Counter(), "fault_crossings": Counter(),
         "other_property_signals": Counter(),
@@ -137,6 +140,8 @@ def merge(a, b):
             a[k].update(v)
         elif isinstance(v, set):
             a[k] |= v
+        elif k == "digest_xor":
+            a[k] ^= v
         elif isinstance(v, int):
             a[k] += v
         elif k == "samples":
@@ -154,7 +159,7 @@ def _alarm(signum, frame):
     raise RunTimeout("run exceeded its wall-clock cap")
 
 
-def worker(prop, base_seed, start, stride, tier, armed, deadline, max_runs):
+def worker(prop, base_seed, start, stride, tier, armed, deadline, max_total):
     import signal
 
     faulthandler.enable()
@@ -166,7 +171,7 @@ def worker(prop, base_seed, start, stride, tier, armed, deadline, max_runs):
     agg = new_agg()
     idx = start
     n = 0
-    while time.time() < deadline and n < max_runs:
+    while time.time() < deadline and idx < max_total:
         try:
             signal.alarm(20)
             run_index(profile, base_seed, idx, tier, armed, agg)
@@ -281,8 +286,7 @@ def run_check(prop, tier, base_seed, budget_s=None, max_runs=None):
     ctx = multiprocessing.get_context("fork")
     harness_fail = None
     with ProcessPoolExecutor(max_workers=NPROC, mp_context=ctx) as ex:
-        futs = [ex.submit(worker, prop, base_seed, k, NPROC, tier, armed, deadline, -(-per // NPROC))
-                for k in range(NPROC)]
+        futs = [ex.submit(worker, prop, base_seed, k, NPROC, tier, armed, deadline, per) for k in range(NPROC)]
         for fu in as_completed(futs, timeout=budget_s + 600):
             try:
                 merge(agg, fu.result())
@@ -355,6 +359,8 @@ def write_evidence(profile, tier, base_seed, agg, wall_total, wall_search, nviol
             "faults_armed": dict(agg["faults_armed"]),
             "faults_fired": dict(agg["faults_fired"]),
             "fault_site_crossings": dict(agg["fault_crossings"]),
+            "runs_digest_xor": f"{agg['digest_xor']:016x}",
+            "swarm_configurations": dict(agg["configs"]),
             "distinct_schedules": len(agg["schedules"]),
             "distinct_tree_shapes": len(agg["shapes"]),
             "comparison_strength": cmp_hist,
@@ -374,6 +380,7 @@ def write_evidence(profile, tier, base_seed, agg, wall_total, wall_search, nviol
         },
         "assumptions": profile.assumptions(),
     }
-    os.makedirs(os.path.join(VERIF, "evidence"), exist_ok=True)
-    with open(os.path.join(VERIF, "evidence", f"{profile.prop}.json"), "w") as f:
+    edir = os.environ.get("RELSIM_EVIDENCE_DIR", os.path.join(VERIF, "evidence"))
+    os.makedirs(edir, exist_ok=True)
+    with open(os.path.join(edir, f"{profile.prop}.json"), "w") as f:
         json.dump(ev, f, indent=1, default=str)
